@@ -35,7 +35,8 @@ KNOWN_CANDIDATES = [
 
 
 def gen_base(rng, small=False):
-    ncols = rng.choice([4, 5, 6])
+    small = small or rng.random() < 0.4     # few candidate pairs (<= workers of most pools) with a binding cap
+    ncols = 3 if small else rng.choice([4, 5, 6])
     cols = ["id"] + ["f%d" % i for i in range(1, ncols - 1)] + ["label"]
     s = rng.choice([1, 1, 2])
     B = rng.choice([300, 450, 600, 800])
@@ -43,7 +44,7 @@ def gen_base(rng, small=False):
     good = nb * B + rng.choice([0, 5, B // 2])
     lines = c08.layout(rng, B, s, ncols, good, rng.choice([0, 2, 6]), 0)
     io = rng.choice([1, 1, 2])
-    cap = rng.choice([2 ** 15, 2 ** 15, rng.randint(3, 9)])
+    cap = rng.choice([1, 2, 2]) if small else rng.choice([2 ** 15, 2 ** 15, rng.randint(3, 9)])
     return {"B": B, "s": s, "cols": cols, "heuristic": rng.choice(["MI-numba-randomized", "max-value-coverage", "MI-numba"]),
             "target_only": rng.choice(["True", "False", "False"]), "seed": rng.randint(0, 10 ** 6), "segments": c08.rle(lines),
             "entry": "task", "interaction_order": io, "cap": cap, "noise": rng.choice(["False", "False", "True"]),
@@ -65,6 +66,21 @@ ROUND6 = [
 ]
 
 
+# Round 6b: edge inputs.
+EDGE = [
+    # very few candidate pairs (no more than a pool has workers) with a binding cap, several batches
+    {"B": 100, "s": 1, "cols": ["id", "f1", "label"], "heuristic": "MI-numba-randomized", "target_only": "True", "seed": 44,
+     "segments": [[400, 3, 0]], "entry": "task", "cap": 1, "matrix": [[1, 0], [3, 1], [8, 0]], "matrix_t": [[1, 0], [2, 0], [3, 1], [8, 0]]},
+    {"B": 100, "s": 1, "cols": ["id", "f1", "label"], "heuristic": "MI-numba-randomized", "target_only": "False", "seed": 45,
+     "segments": [[400, 3, 0]], "entry": "task", "cap": 2, "matrix": [[1, 0], [8, 0]], "matrix_t": [[1, 0], [2, 0], [3, 0], [8, 1]]},
+    # degenerate columns: constant label, an entirely empty column, a strictly periodic column (batch of 99 = 33 periods);
+    # exact repeat + another pool size
+    {"B": 99, "s": 1, "cols": ["id", "f", "g", "e", "p", "label"], "heuristic": "MI-numba-randomized", "target_only": "False",
+     "seed": 43, "segments": [[198, 6, 0]], "entry": "task", "col_override": {"3": "empty", "4": "periodic:3", "5": "const:0"},
+     "matrix": [[2, 0], [2, 0], [8, 0]], "matrix_t": [[2, 0], [2, 0], [8, 0], [1, 1]]},
+]
+
+
 ORDERED = [(1, "reverse"), (2, "random"), (4, "pathos-like"), (8, "last-worker-first"), (16, "random"), (3, "random"),
            (2, "pathos-like"), (5, "reverse")]
 UNORDERED = [(4, "random"), (2, "reverse"), (8, "pathos-like")]
@@ -73,9 +89,9 @@ UNORDERED = [(4, "random"), (2, "reverse"), (8, "pathos-like")]
 def variants(rng, base, n_ord, n_un):
     out = [dict(base, pool={"kind": "serial"})]
     for n, mode in rng.sample(ORDERED, n_ord):
-        out.append(dict(base, pool={"kind": "adversarial", "n": n, "mode": mode, "seed": rng.randint(0, 10 ** 6)}))
+        out.append(dict(base, num_threads=n, pool={"kind": "adversarial", "n": n, "mode": mode, "seed": rng.randint(0, 10 ** 6)}))
     for n, mode in rng.sample(UNORDERED, n_un):
-        out.append(dict(base, pool={"kind": "adversarial", "n": n, "mode": mode, "seed": rng.randint(0, 10 ** 6), "unordered": True}))
+        out.append(dict(base, num_threads=n, pool={"kind": "adversarial", "n": n, "mode": mode, "seed": rng.randint(0, 10 ** 6), "unordered": True}))
     return out
 
 
@@ -89,7 +105,7 @@ def cli_configs(tier):
     # and one exact repeat (same threads, same PYTHONHASHSEED) whose table must be bit-identical
     big = {"B": 600, "s": 1, "cols": ["id", "f1", "f2", "f3", "f4", "f5", "label"], "heuristic": "max-value-coverage",
            "target_only": "False", "seed": 15, "segments": [[1300, 7, 0]], "interaction_order": 2, "cap": 2 ** 15, "noise": "False",
-           "matrix": [[1, 0], [16, 0], [16, 0], [4, 1], [8, 2]] if tier != "thorough" else
+           "matrix": [[1, 0], [16, 0], [16, 0], [8, 2]] if tier != "thorough" else
                      [[1, 0], [2, 0], [4, 0], [8, 0], [16, 0], [16, 0], [16, 1], [3, 2]]}
     # round 5: the command-line default --disable_tqdm False (banner + random tip are printed by the parent before ranking)
     # together with the noise controls, which the parent draws from the process-wide numpy generator on every batch:
@@ -184,20 +200,21 @@ def check(run, replay):
             cfgs = [rc["config"]]
             matrix = rc["matrix"]
         else:
-            groups = [[dict(rc["base"], pool={"kind": "serial"}), dict(rc["base"], pool=rc["pool"])]]
+            groups = [[dict(rc["base"], num_threads=1, pool={"kind": "serial"}), dict(rc["base"], pool=rc["pool"])]]
             matrix = []
     else:
         for c in c08.load_corpus("C09"):
             if c.get("kind") == "cli":
                 cfgs.append(c["config"])
             else:
-                groups.append([dict(c["base"], pool={"kind": "serial"}), dict(c["base"], pool=c["pool"])])
+                groups.append([dict(c["base"], num_threads=1, pool={"kind": "serial"}), dict(c["base"], pool=c["pool"])])
         nb = 5 if quick else 40
         for _ in range(nb):
             groups.append(variants(run.rng, gen_base(run.rng), 4, 2))
         cfgs += cli_configs(run.tier)
         cfgs += [dict(k, matrix=HASHSEED_MATRIX if quick else HASHSEED_MATRIX_T) for k in KNOWN_CANDIDATES]
         cfgs += [dict(k, matrix=SEEDS_POOLS if quick else SEEDS_POOLS_T) for k in ROUND6]
+        cfgs += [dict(k, matrix=k["matrix"] if quick else k["matrix_t"]) for k in EDGE]
         matrix = cli_matrix(run.tier)
     cli_groups = []
     for cfg in cfgs:
@@ -208,7 +225,7 @@ def check(run, replay):
         cli_groups.append((cfg, idxs))
     flat = [c for g in groups for c in g]
     root = os.path.join(vlib.CACHE, "c09", str(os.getpid()))
-    res = vlib.run_impl("impl_c09.py", {"fake": flat, "cli": cli_specs, "root": root, "cli_parallel": 20 if quick else 12},
+    res = vlib.run_impl("impl_c09.py", {"fake": flat, "cli": cli_specs, "root": root, "cli_parallel": 27 if quick else 12},
                         timeout=3000)
     fres, cres = res["fake"], res["cli"]
 
@@ -232,7 +249,7 @@ def check(run, replay):
             hist["batches"][str(nb)] = hist["batches"].get(str(nb), 0) + 1
             ntasks = max([len(b.get("triplets") or []) // 2 for b in r.get("batches", [])] or [0])
             hist["tasks_per_batch_max"] = max(hist["tasks_per_batch_max"], ntasks)
-            canon = {kk: c.get(kk) for kk in ("B", "s", "cols", "segments", "heuristic", "target_only", "interaction_order", "cap", "noise", "extra_args", "disable_tqdm", "pool")}
+            canon = {kk: c.get(kk) for kk in ("B", "s", "cols", "segments", "heuristic", "target_only", "interaction_order", "cap", "noise", "extra_args", "disable_tqdm", "num_threads", "pool")}
             run.count_case(canon, nb >= 2 and ntasks >= 6)
             rcase = {"kind": "pool", "base": {kk: vv for kk, vv in c.items() if kk != "pool"}, "pool": spec}
             if not r.get("ok"):
@@ -330,6 +347,8 @@ def check(run, replay):
     if any(v["obligation"].startswith(("correspondence(b,c)", "command line")) for v in run.violations):
         run.obligations[-1] = (run.obligations[-1][0], False, "see violations")
 
+    # the replay file is written for the first violation: prefer a fresh-process one (it carries the command lines)
+    run.violations.sort(key=lambda v: 0 if isinstance(v.get("case"), dict) and v["case"].get("kind") == "cli" else 1)
     run.cov["input_distribution"] = hist
     run.cov["exhaustive"] = False
     run.cov["partial"] = ("the OS scheduler, pathos/multiprocess/dill and the purity of the per-pair scorer are not modelled; "
